@@ -28,15 +28,30 @@ func runWipe(env *execenv.Env) error {
 	}
 
 	env.Out.Println("cleaning git config ...")
-	err = env.Backend.ClearUserIdentity()
+	// removing a config key or section that doesn't exist is an error: only remove what is there
+	hasUser, err := env.Backend.IsUserIdentitySet()
 	if err != nil {
 		_ = env.Backend.Close()
 		return err
 	}
-	err = env.Backend.LocalConfig().RemoveAll("git-bug")
+	if hasUser {
+		err = env.Backend.ClearUserIdentity()
+		if err != nil {
+			_ = env.Backend.Close()
+			return err
+		}
+	}
+	conf, err := env.Backend.LocalConfig().ReadAll("git-bug")
 	if err != nil {
 		_ = env.Backend.Close()
 		return err
+	}
+	if len(conf) > 0 {
+		err = env.Backend.LocalConfig().RemoveAll("git-bug")
+		if err != nil {
+			_ = env.Backend.Close()
+			return err
+		}
 	}
 
 	storage := env.Backend.LocalStorage()
